@@ -179,7 +179,7 @@ def extended_search(prop: str, comp: str, mod, tier: str, failing: list) -> dict
 
 
 # properties whose anchored module is also tied by the translator (checks/py2lean.py + ProcSim/Props/*gen.lean)
-TIE_MODULE = {"C19": "reg_access", "C04": "sim_utils", "C05": "sim_utils"}
+TIE_MODULE = {"C19": "reg_access", "C04": "sim_utils", "C05": "sim_utils", "C01": "acc_plan", "C02": "acc_plan"}
 # properties that are also observed through a secondary channel served by another component: the command line must
 # reject (exit status, no table) what the library rejects / must not complete a run that stalls
 SECONDARY = {"C08": "e2e", "C11": "e2e", "C14": "e2e", "C15": "e2e"}
